@@ -748,6 +748,48 @@ pub fn suite_tok(ctx: &mut Ctx) {
             tok_input(ctx, t.as_bytes());
         }
     }
+    // PAIRS of control / whitespace bytes at every alignment inside a text longer than a machine word or a small buffer (a
+    // scanner that works on 8 / 16 / 32 bytes at a time sees a pair differently depending on where it sits)
+    {
+        let ctl: [u8; 15] = [b'\t', b'\n', 0x0b, 0x0c, b'\r', 0x1c, 0x1d, 0x1e, 0x1f, b' ', 0x7f, 0x00, 0x85, 0xa0, b'x'];
+        for (pi, &a) in ctl.iter().enumerate() {
+            if !ctx.take() {
+                continue;
+            }
+            for &b in &ctl {
+                for shift in 0..9usize {
+                    let mut t: Vec<u8> = std::iter::repeat(b'f').take(29 + shift).collect();
+                    t.push(a);
+                    t.push(b);
+                    t.extend_from_slice(b"xy");
+                    if (pi + shift) % 2 == 0 {
+                        t.extend(std::iter::repeat(b'g').take(19));
+                    }
+                    ctx.count("tok.inputs.control_pairs");
+                    tok_input(ctx, &t);
+                }
+            }
+        }
+    }
+    // code points that ALIAS a whitespace character when truncated to 16 or 8 bits, right behind (and in front of) that
+    // character: a cache or table keyed by a narrowed code point confuses exactly these
+    {
+        let ws: [u32; 12] = [0x85, 0xa0, 0x1680, 0x2000, 0x2003, 0x200a, 0x2028, 0x2029, 0x202f, 0x205f, 0x3000, 0x20];
+        for &w in &ws {
+            if !ctx.take() {
+                continue;
+            }
+            let wc = char::from_u32(w).unwrap();
+            let mut aliases: Vec<char> = (1..=16u32).filter_map(|pl| char::from_u32((pl << 16) | w)).collect();
+            aliases.extend([0x100u32, 0x300, 0x2000, 0x3000, 0xff00].iter().filter_map(|hi| char::from_u32(hi | (w & 0xff))));
+            for c in aliases {
+                for t in [format!("{}{}", wc, c), format!("{}{}", c, wc), format!("a{}{}b{}", wc, c, wc), format!("{} {}", c, wc)] {
+                    ctx.count("tok.inputs.aliasing_code_points");
+                    tok_input(ctx, t.as_bytes());
+                }
+            }
+        }
+    }
     // the tokenizers as the text-diff entry points use them
     for (o, n) in terminator_change_pairs(if ctx.tier == Tier::Quick { &[0, 3, 700, 5000] } else { &[0, 1, 3, 120, 700, 5000, 20000] }) {
         if !ctx.take() {
@@ -1175,6 +1217,68 @@ fn text_case(ctx: &mut Ctx, c: &TextCfg, mode: Mode, old: &[u8], new: &[u8]) -> 
         }
     }
     (ans, ev)
+}
+
+/// a text diff over the case-insensitive user-defined type: the ops are those of diffing its own token slices directly
+/// (under the type's `==`), every change reads its value from the proper side (an Equal change from OLD), and both texts are
+/// reconstructed byte for byte
+fn case_insensitive_case(ctx: &mut Ctx, c: &TextCfg, old: &[u8], new: &[u8]) {
+    use super::custom_str::CiStr;
+    let (o, n) = (CiStr::new(old), CiStr::new(new));
+    let req = format!("{} [as a case-insensitive user-defined DiffableStr type]", text_request(c, Mode::Bytes, old, new));
+    let r = catch_unwind(AssertUnwindSafe(|| {
+        let diff = build_diff(c, DlHow::Deadline, None, o, n);
+        let direct = similar::capture_diff_slices(c.alg, diff.old_slices(), diff.new_slices());
+        let mut bad_side = None;
+        let mut so: Vec<u8> = vec![];
+        let mut sn: Vec<u8> = vec![];
+        // each consumption style must hand out the same value slices (by identity)
+        let ids = |it: &mut dyn Iterator<Item = similar::Change<&CiStr>>| -> Vec<(usize, usize)> { it.map(|ch| (ch.value().bytes().as_ptr() as usize, ch.value().len())).collect() };
+        let plain = ids(&mut diff.iter_all_changes());
+        let last = diff.iter_all_changes().last().map(|ch| (ch.value().bytes().as_ptr() as usize, ch.value().len()));
+        let per_op = ids(&mut diff.ops().iter().flat_map(|op| diff.iter_changes(op)));
+        for ch in diff.iter_all_changes() {
+            let v = ch.value().bytes();
+            let want: &[u8] = match (ch.tag(), ch.old_index(), ch.new_index()) {
+                (ChangeTag::Insert, _, Some(j)) => diff.new_slices()[j].bytes(),
+                (_, Some(i), _) => diff.old_slices()[i].bytes(),
+                _ => &[],
+            };
+            if v.as_ptr() != want.as_ptr() || v.len() != want.len() {
+                bad_side = Some(format!("{:?} change at old {:?} / new {:?} carries {:?}, not the token of its side", ch.tag(), ch.old_index(), ch.new_index(), String::from_utf8_lossy(v)));
+            }
+            if ch.tag() != ChangeTag::Insert {
+                so.extend_from_slice(v);
+            }
+            if ch.tag() != ChangeTag::Delete {
+                // an Equal change carries the OLD token; the new text is reconstructed through its index
+                sn.extend_from_slice(match ch.new_index() {
+                    Some(j) => diff.new_slices()[j].bytes(),
+                    None => v,
+                });
+            }
+        }
+        (diff.ops().to_vec(), direct, bad_side, so, sn, plain.last().copied() == last, plain == per_op)
+    }));
+    ctx.count("text.case_insensitive_type_runs");
+    match r {
+        Err(_) => ctx.violation("C04", &req, "the text diff panicked".to_string()),
+        Ok((ops, direct, bad_side, so, sn, last_ok, per_op_ok)) => {
+            if ops != direct {
+                ctx.violation("C14", &req, format!("ops {} differ from diffing the diff's own token slices directly: {}", proto::show_ops(&ops), proto::show_ops(&direct)));
+            }
+            if let Some(e) = bad_side {
+                ctx.violation("C13", &req, e.clone());
+                ctx.violation("C04", &req, e);
+            }
+            if so != old || sn != new {
+                ctx.violation("C04", &req, "the changes do not reconstruct the texts".to_string());
+            }
+            if !last_ok || !per_op_ok {
+                ctx.violation("C13", &req, "iter_all_changes().last() / the per-op expansion hand out other value slices than plain iteration".to_string());
+            }
+        }
+    }
 }
 
 /// a pair in every applicable mode, plus the C20 / C07 checks
@@ -1645,6 +1749,37 @@ pub fn suite_text(ctx: &mut Ctx) {
             text_case(ctx, &c, mode, &old, &new);
             text_case(ctx, &c, mode, &new, &old);
         }
+    }
+    // the case-insensitive user-defined type: some tokens of new differ from old only in case (equal under the type's `==`, not
+    // byte-identical), a few really differ; below and above the 100-token switch; lines and words
+    let nci = if ctx.tier == Tier::Quick { 400u64 } else { 5000 };
+    for i in 0..nci {
+        if !ctx.take() {
+            continue;
+        }
+        let mut rng = case_rng(ctx, 0xc15e, i);
+        let n = if i % 3 == 0 { rng.range(3, 30) } else { rng.range(101, 130) };
+        let sep = if i % 2 == 0 { "\n" } else { " " };
+        let old: Vec<String> = (0..n).map(|k| format!("tok{}{}", ["a", "b", "c"][k % 3], k / (1 + i as usize % 4))).collect();
+        let mut new = old.clone();
+        for _ in 0..rng.range(1, 6) {
+            let at = rng.below(new.len());
+            new[at] = new[at].to_uppercase();
+        }
+        for _ in 0..rng.below(3) {
+            let at = rng.below(new.len());
+            match rng.below(3) {
+                0 => {
+                    new.remove(at);
+                }
+                1 => new.insert(at, format!("NEW{}", at)),
+                _ => new[at] = format!("changed{}", at),
+            }
+        }
+        let (o, nn) = (old.join(sep) + sep, new.join(sep) + sep);
+        let c = TextCfg { kind: if i % 2 == 0 { Kind::Lines } else { Kind::Words }, alg: ALGS[((i / 2) % 3) as usize], nlt: None, dl: None };
+        case_insensitive_case(ctx, &c, o.as_bytes(), nn.as_bytes());
+        case_insensitive_case(ctx, &c, nn.as_bytes(), o.as_bytes());
     }
     // PASTED lines: an old text of distinct lines, a new text in which a few of them are dropped and a few EXISTING lines are
     // pasted in a second time elsewhere (nothing repeats in old, shared lines repeat in new), on both sides of the 100-token
@@ -2445,6 +2580,56 @@ pub fn suite_udiff(ctx: &mut Ctx) {
         Tier::Quick => (2, 3, 0u64, 3000u64),
         Tier::Thorough => (3, 4, 16, 30000),
     };
+    // LINE LENGTH sweep through the renderer: a changed last line without final newline (the marker is appended to it), a
+    // changed line with newline and a context line, of every length 0..=600 and around 1024 / 4096 (a line buffer of any
+    // plausible size has its boundary in here), Display and writer
+    let mut lens: Vec<usize> = (0..=600).collect();
+    lens.extend_from_slice(&[1000, 1021, 1022, 1023, 1024, 1025, 2047, 2048, 4094, 4095, 4096, 4097, 8191, 8192]);
+    for (li, &len) in lens.iter().enumerate() {
+        if !ctx.take() {
+            continue;
+        }
+        let body: String = std::iter::repeat('x').take(len).collect();
+        let ctxl: String = std::iter::repeat('c').take(len / 2 + 1).collect();
+        let old = format!("{}\nkeep\n{}", ctxl, body);
+        let new = format!("{}\nkeep\n{}\n", ctxl, body);
+        let old2 = format!("{}y\n{}\n", body, ctxl);
+        let new2 = format!("{}z\n{}", body, ctxl);
+        for (o, n) in [(&old, &new), (&new, &old), (&old2, &new2)] {
+            for writer in [true, false] {
+                let c = UCfg { alg: ALGS[li % 3], radius: li % 3, hdr: li % 2 == 0, hint: true, writer, nlt: None };
+                ctx.count("udiff.line_length_sweep");
+                udiff_case(ctx, &c, if li % 2 == 0 { Mode::Str } else { Mode::Bytes }, o.as_bytes(), n.as_bytes());
+            }
+        }
+    }
+    // a diff whose f32 ratio rounds to exactly 1.0 although the texts differ (2^23 + 1 identical lines, one removed): it must
+    // still render its hunk (implementation only)
+    if ctx.take() {
+        let n = (1usize << 23) + 1;
+        let old: String = "x\n".repeat(n);
+        let new: String = "x\n".repeat(n - 1);
+        let req = "udiff 1 0 1 1 writer | <TextDiff of 2^23+1 identical lines vs 2^23: one deletion, ratio rounds to 1.0>".to_string();
+        let r = catch_unwind(AssertUnwindSafe(|| {
+            let diff = TextDiff::from_lines(&old[..], &new[..]);
+            let u = diff.unified_diff();
+            let hunks = u.iter_hunks().count();
+            let text = u.to_string();
+            let mut w: Vec<u8> = vec![];
+            let _ = u.to_writer(&mut w);
+            (hunks, text, w, diff.ratio())
+        }));
+        ctx.count("udiff.huge_ratio_rounding_case");
+        match r {
+            Err(_) => ctx.violation("C05", &req, "rendering a large diff panicked".to_string()),
+            Ok((hunks, text, w, ratio)) => {
+                let want = "@@ -8388606,4 +8388606,3 @@\n x\n x\n x\n-x\n";
+                if hunks != 1 || text != want || w != want.as_bytes() {
+                    ctx.violation("C05", &req, format!("the texts differ (ratio() = {}) but the unified diff has {} hunks and reads {:?}", ratio, hunks, &text[..text.len().min(80)]));
+                }
+            }
+        }
+    }
     let texts = line_texts(max_lines);
     let short = |t: &Vec<u8>| split_lines(t).len() <= 2;
     let mut k = 0u64;
